@@ -164,6 +164,13 @@ class Ctx:
             ok = bool(cond)
             self.results.append((clause, ok, info))
 
+    def lemma(self, clause, cond, **info):
+        """prove(cond) as its own obligation, then use it as a hypothesis for what follows
+        (sound: if the lemma fails it is reported; later proofs are conditional on it)."""
+        self.prove(clause, cond, **info)
+        if self.mode == "symbolic":
+            self._p.assume(cond, "lemma " + clause)
+
     def eq(self, a, b, tol=None):
         """a == b (exact for proxies; within tolerance for floats), elementwise for arrays."""
         if isinstance(a, (np.ndarray, list, tuple)) or isinstance(b, (np.ndarray, list, tuple)):
@@ -208,6 +215,11 @@ class Ctx:
         if self.mode == "symbolic":
             self._p.notes.append(text)
 
+    def stub(self, owner, name, replacement, only_symbolic=True):
+        """Replace owner.name by a contract stub for the duration of a `with` block (DESIGN §2.3).
+        By default only in symbolic mode: the run-time monitor / replay run the real callee."""
+        return _Stub(owner, name, replacement, active=(self.symbolic or not only_symbolic))
+
     def call(self, fn, *a, **kw):
         """Call fn; returns (result, exception).  Exceptions of the engine pass through."""
         try:
@@ -216,6 +228,26 @@ class Ctx:
             raise
         except Exception as e:  # noqa: BLE001
             return None, e
+
+
+class _Stub:
+    def __init__(self, owner, name, replacement, active):
+        self.owner, self.name, self.replacement, self.active = owner, name, replacement, active
+
+    def __enter__(self):
+        if self.active:
+            self.had = self.name in getattr(self.owner, "__dict__", {})
+            self.old = getattr(self.owner, "__dict__", {}).get(self.name) if self.had else None
+            setattr(self.owner, self.name, self.replacement)
+        return self
+
+    def __exit__(self, *exc):
+        if self.active:
+            if self.had:
+                setattr(self.owner, self.name, self.old)
+            else:
+                delattr(self.owner, self.name)
+        return False
 
 
 def _S(v):
